@@ -34,6 +34,12 @@ def gen_plan(ch: Chooser, tier: str) -> dict[str, Any]:
                                       delete_handlers=True, foreign_finalizers=True, max_objects=3,
                                       sync_share=ch.choice([0.0, 0.0, 0.3, 0.7]))
     op = plan['operators'][0]
+    if any(h['kind'] == 'daemon' and h['daemon'].get('sync') for h in op['handlers']) and ch.bool(0.4):
+        op['thread_start_latency'] = ch.choice([0.5, 3.0])   # a busy executor: submitted functions start late
+    for h in op['handlers']:
+        # a synchronous daemon that never reacts (its thread outlives the run): it must be abandoned after its timeout
+        if h['kind'] == 'daemon' and h['daemon'].get('sync') and h['daemon']['mode'] == 'ignore' and ch.bool(0.5):
+            h['daemon']['hold'] = 500.0
     if not any(h['kind'] in ('daemon', 'timer', 'delete') for h in op['handlers']):
         op['handlers'].append({'id': 'd9', 'kind': 'delete', 'opts': {}, 'script': [{'do': 'ok'}]})
     names = sorted({a['name'] for a in plan['actions'] if a.get('name')} |
@@ -181,6 +187,19 @@ def oracle(run: runner.Run, oc: Outcome) -> None:
         deleting = (view.get('metadata') or {}).get('deletionTimestamp') is not None
         # daemons/timers of the live process
         for c in run.calls:
+            if c.hkind == 'daemon' and c.inc == inc and c.uid == tr.uid and c.t0 > tr.t + EPS and deleting \
+                    and (c.extra or {}).get('sync'):
+                # a synchronous daemon whose function was still queued in a busy executor when its object was released:
+                # it holds the finalizer from the moment it is spawned, unless it had been abandoned by then
+                o2 = hspecs[c.hid].get('opts', {})
+                f2 = (c.extra or {}).get('flag_at')
+                t2 = o2.get('cancellation_timeout')
+                if spawning.matches(hspecs[c.hid], view) and not (
+                        f2 is not None and t2 is not None and tr.t >= f2 + float(o2.get('cancellation_backoff') or 0.0) + float(t2) - EPS):
+                    oc.add('C06/released-early', 'daemon-started-after-release',
+                           f"{tr.name}: the framework's finalizer was removed at t={tr.t:.4f}; daemon {c.hid} of that object, "
+                           f"spawned before and waiting for a thread, started at t={c.t0:.4f} (stop flag at {f2})",
+                           name=tr.name, hid=c.hid)
             if c.hkind not in ('daemon', 'timer') or c.inc != inc or c.uid != tr.uid or c.t0 > tr.t:
                 continue
             if c.t1 is not None and c.t1 <= tr.t + 1e-9:
